@@ -91,6 +91,11 @@ def explore(prog, name, budget=300000):
                 if eng.decide(("cmp", "eq", Lin.atom(zp["id"]), Lin.const(0)), facts) is True:
                     ex.append("zero-length-request")
                     break
+        src_null = False
+        for sn in ("src", "srcp"):
+            sp_ = fn.pnames.get(sn)
+            if sp_ is not None and sp_["ty"].endswith("*") and eng.decide(("cmp", "eq", Lin.atom("&" + sp_["id"]), Lin.const(0)), facts) is True:
+                src_null = True
         d_ = describe(rv)
         r = eng.as_lin(rv) if rv is not None and rv[0] in ("i", "p") else None
         err = None
@@ -109,11 +114,11 @@ def explore(prog, name, budget=300000):
             err = True if rv[1] == "null" else (False if eng.decide(("cmp", "eq", eng.as_lin(rv), Lin.const(0)), facts) is False else None)
         line = exit_line(fn, path)
         msg = exit_message(fn, path)
-        key = (d_, err, dirty, c1, cf, nul, tuple(ex), msg, wrote, slack, ret_at_term, term is not None)
+        key = (d_, err, dirty, c1, cf, nul, tuple(ex), msg, wrote, slack, ret_at_term, term is not None, src_null)
         if key in seen:
             continue
         seen.add(key)
-        outs.append(dict(ret=d_, err=err, dirty=dirty, clr_first=c1, clr_full=cf, nul=nul, wrote=wrote, slack=slack, ret_at_term=ret_at_term, has_term=term is not None, exempt=ex, line=line, msg=msg, path=path[-10:] if path else None))
+        outs.append(dict(ret=d_, err=err, dirty=dirty, clr_first=c1, clr_full=cf, nul=nul, wrote=wrote, slack=slack, ret_at_term=ret_at_term, has_term=term is not None, src_null=src_null, exempt=ex, line=line, msg=msg, path=path[-10:] if path else None))
     return dict(outcomes=outs, n_paths=len(res), states=eng.nstates, conv=conv, file=fn.file, unit=plugin.unit, precision=eng.precision)
 
 
